@@ -242,6 +242,9 @@ type wrappedSRTPContext struct {
 
 	w     *srtp.Context
 	mutex sync.RWMutex
+
+	// last sequence number of outgoing RTP packets, by SSRC
+	lastSeqNums map[uint32]uint16
 }
 
 func (ctx *wrappedSRTPContext) initialize() error {
@@ -274,7 +277,23 @@ func (ctx *wrappedSRTPContext) decryptRTCP(dst []byte, encrypted []byte, header 
 func (ctx *wrappedSRTPContext) encryptRTP(dst []byte, plaintext []byte, header *rtp.Header) ([]byte, error) {
 	ctx.mutex.Lock()
 	defer ctx.mutex.Unlock()
-	return ctx.w.EncryptRTP(dst, plaintext, header)
+
+	ret, err := ctx.w.EncryptRTP(dst, plaintext, header)
+	if err != nil {
+		return nil, err
+	}
+
+	if ctx.lastSeqNums == nil {
+		ctx.lastSeqNums = make(map[uint32]uint16)
+	}
+	if header != nil {
+		ctx.lastSeqNums[header.SSRC] = header.SequenceNumber
+	} else if len(plaintext) >= 12 {
+		ssrc := uint32(plaintext[8])<<24 | uint32(plaintext[9])<<16 | uint32(plaintext[10])<<8 | uint32(plaintext[11])
+		ctx.lastSeqNums[ssrc] = uint16(plaintext[2])<<8 | uint16(plaintext[3])
+	}
+
+	return ret, nil
 }
 
 func (ctx *wrappedSRTPContext) encryptRTCP(dst []byte, decrypted []byte, header *rtcp.Header) ([]byte, error) {
@@ -287,5 +306,13 @@ func (ctx *wrappedSRTPContext) roc(ssrc uint32) uint32 {
 	ctx.mutex.RLock()
 	defer ctx.mutex.RUnlock()
 	v, _ := ctx.w.ROC(ssrc)
+
+	// the ROC is sent to a peer that starts decrypting from the next packet.
+	// If the sequence number of the next packet wraps around,
+	// that packet is encrypted with the next ROC.
+	if last, ok := ctx.lastSeqNums[ssrc]; ok && last == 0xFFFF {
+		v++
+	}
+
 	return v
 }
